@@ -184,7 +184,8 @@ def bounded(tier, seed):
     callables = [('x[::2]', lambda x: x[::2]), ('x[:1]', lambda x: x[:1]), ('diff', np.diff),
                  ('convolve-valid', lambda x: np.convolve(x, [0.5, 0.5], mode='valid')),
                  ('convolve-same', lambda x: np.convolve(x, [0.25, 0.5, 0.25], mode='same')),
-                 ('cumsum', np.cumsum), ('mean-as-callable', lambda x: np.array([x.mean()]))]
+                 ('cumsum', np.cumsum), ('mean-as-callable', lambda x: np.array([x.mean()])),
+                 ('x[:0] (empty output)', lambda x: x[:0])]
 
     def oracle(v, dims, dimfuncs):
         a = np.ma.asarray(v)
